@@ -521,6 +521,7 @@ func runC13(c *Ctx) {
 	for _, id := range []string{"pkg/core.PurgeBuildReverseIndex", "pkg/core.PurgeDeleteUnused", "pkg/core.scanBlob", "pkg/core.copyIndexChunks", "pkg/core.loadChunk", "pkg/core.scanContext", "pkg/core.repoKeysScanner", "pkg/core.chunkUploader"} {
 		checkNoSwallow(c, "errors.no-success-on-failure", p.Func(id), purgeIO, []string{"ErrNotExists"})
 	}
+	checkGenericErrorDiscipline(c, "pkg/core")
 }
 
 func runC14(c *Ctx) {
@@ -806,6 +807,7 @@ func runC14(c *Ctx) {
 	if n := checkLoopVarCapture(c, "loopvar", "pkg/core"); n < 2 {
 		c.fail("loopvar", "instances", "-", "expected at least 2 asynchronous closures inside loops in pkg/core, found "+itoa(n))
 	}
+	checkGenericErrorDiscipline(c, "pkg/core")
 }
 
 func firstCallArgRecv(f *FuncInfo, callee string) ast.Expr {
